@@ -86,6 +86,9 @@ def gen(tier, rng, harness=None):
     for name in C.run_lines([harness, "run"], ["rename.list"])[0].split(","):
         for mode in "012":
             lines.append("!rename.ok %s %s" % (name, mode))
+            if mode != "2":
+                # (the same observers, then the ADDRESS SPACE of the global variable and the function is edited: the text is the one the edits give unobserved)
+                lines.append("!edit.as %s %s" % (name, mode))
     # every sequence of up to 3 (quick) / 4 (thorough) edits out of three values per field (e.g. address space 5, 0, 3): a value that an observer
     # cached must be overwritten by the next edit, including the edit back to the zero value
     for k in FIELD_KINDS:
